@@ -308,7 +308,11 @@ Proof.
     rewrite <- (BR_ifms H). apply BR_set_ifms. exact H. }
   intros u1 u2 HU RU. keep. clear RU.
   apply bwp_bind. apply (bwp_skip_non_blank md); [exact HU|eassumption|]. intros v1 v2 HV _.
-  apply bwp_bind. apply (bwp_look_ch md); [exact HV|]. intros w1 w2 HW _ _ _ _. cbv beta. b1_norm.
+  apply bwp_bind.
+  apply bwp_mono with (Q := fun (c1 : chr) (t1 : bst) (c2 : chr) (t2 : bst) => BR md t1 t2 /\ (c2 =? 9)%N = (c1 =? 9)%N).
+  { br; [|apply bwp_ret; split; [exact HV|reflexivity]].
+    apply (bwp_look_ch md); [exact HV|]. intros w1 w2 HW _ _ _ _. cbv beta. b1_norm. split; [exact HW|reflexivity]. }
+  intros c1 w1 c2 w2 [HW Ec]. cbv beta. rewrite Ec. clear Ec.
   eapply (bwp_call_eq md).
   { br; [|apply bwp_ret; fin].
     eapply (bwp_call_eq md); [apply (skip_ws_to_eol_ok md); exact HW|]. intros tw x1 x2 HX.
@@ -323,7 +327,7 @@ Proof.
     apply bwp_bind. br; [apply bwp_panic_l|]. apply bwp_ret.
     apply bwp_bind. apply (bwp_insert_token md); [exact HX|apply TR_empty; exact (kr_mark HK)|]. intros y1 y2 HY _.
     eapply (bwp_call_eq md).
-    { br; [|apply bwp_ret; fin]. br; [apply bwp_fail; exact (br_mark H)|].
+    { br; [|apply bwp_ret; fin]. br; [apply bwp_fail; exact (br_mark H)|]. br; [|apply bwp_ret; fin].
       apply (bwp_insert_token md); [exact HY|apply TR_empty; exact (kr_mark HK)|]. intros; fin. }
     intros [] z1 z2 HZ.
     apply bwp_bind. apply (bwp_roll_indent md); [exact HZ|exact (kr_mark HK)|]. intros a1 a2 HA _.
